@@ -341,7 +341,8 @@ def family():
          'constraints': [], 'fields': [
              fld('id', 'AutoField', primary_key=True), fld('note', 'CharField', max_length=20, null=True),
              fld('code', 'CharField', max_length=10, null=True), fld('qty', 'IntegerField', null=True),
-             fld('score', 'IntegerField', null=True)]}]}]}
+             fld('score', 'IntegerField', null=True),
+             fld('alias', 'CharField', max_length=10, null=True, db_column='alias_col')]}]}]}
     cf = lambda field, initial, *attrs: {'t': 'ChangeField', 'model': 'Alpha', 'field': field, 'ftype': None,
                                          'initial': initial, 'attrs': [list(a) for a in attrs]}
     add = lambda field, initial: {'t': 'AddField', 'model': 'Alpha', 'field': field, 'ftype': 'IntegerField',
@@ -381,6 +382,12 @@ def family():
         [cf('note', '"n/a"', ('max_length', '50')), cf('qty', '0', ('null', 'false'))],
         [add('extra', '7'), cf('note', None, ('max_length', '30')), cf('score', '-1', ('null', 'false'))],
         [cf('qty', '0', ('null', 'false')), cf('score', '-1', ('null', 'false')), add('extra', '7')],
+        # a field whose column is not called like the field: NULLs filled in, values kept
+        [cf('alias', '"A"', ('null', 'false'))],
+        [cf('alias', '"A"', ('null', 'false')), add('extra', '7')],
+        # ... and a new column that is called like that FIELD
+        [{'t': 'AddField', 'model': 'Alpha', 'field': 'other', 'ftype': 'IntegerField', 'initial': '5',
+          'attrs': [['db_column', '"alias"']]}],
         # two changes of one field in a batch, the later one restating what the earlier one set
         [cf('note', None, ('max_length', '40')), add('extra', '7'), cf('qty', '-1', ('null', 'false')),
          cf('note', '"n/a 100% \'q\'"', ('max_length', '60'), ('null', 'false'))],
